@@ -82,7 +82,7 @@ PROPS["C13"] = dict(
     jobs=[Job("field/hash", ["common/vhash.go.tmpl", "C13/expand.go.tmpl"])],
     level_text="Bounded proof of expand_message_xmd against the RFC 9380 recurrence with the hash as a free function.",
     level_note="SHA-256 replaced by an uninterpreted streaming hash (sizes 32/64 kept).",
-    bounds="lenInBytes 0..70 (content), >8160 (error path); len(msg),len(dst) <= 2; len(dst) 253..258",
+    bounds="lenInBytes 0..70 (content), 8129..8160 (accepted, output length; 255 blocks), >8160 (error path); len(msg),len(dst) <= 2; len(dst) 253..258",
     outside="RFC byte vectors (need concrete SHA-256)",
     assumptions=["hash = uninterpreted streaming function"],
 )
@@ -102,9 +102,9 @@ PROPS["C14"] = dict(
                "uninterpreted modulo associativity/commutativity, byte conversions exact): these are the contracts of C01/C08. "
                "encrypt is an uninterpreted function in the streaming harnesses; round constants are symbolic (their Keccak "
                "derivation is outside the claim).",
-    bounds="Write: len(p) <= 2*BlockSize+1, spare capacity <= BlockSize, all byte values; streaming: 2 blocks, "
+    bounds="Write: len(p) <= 2*BlockSize+1, spare capacity <= BlockSize, all byte values; streaming: 2 blocks (3 blocks for the split laws), "
            "histories Write/Write/Sum/Sum/Reset/State/SetState as written in the harness (incl. SetState with one block pending); round: 2 blocks, all rounds",
-    outside="Poseidon2, SIS (not built yet); constants derivation; messages longer than 2 blocks",
+    outside="Poseidon2, SIS (not built yet); constants derivation; messages longer than 3 blocks",
     assumptions=["felt summaries of fr.Element operations", "hash registry not exercised"],
 )
 
